@@ -550,9 +550,7 @@ impl Prop for Framing {
                     .build()
                     .map_err(|e| e.to_string())?;
                 let out = rt.block_on(async move {
-                    let listener = tokio::net::TcpListener::bind("127.0.0.1:0")
-                        .await
-                        .map_err(|e| e.to_string())?;
+                    let listener = crate::net::bind_local().map_err(|e| e.to_string())?;
                     let port = listener.local_addr().map_err(|e| e.to_string())?.port();
                     let acceptor = crate::net::tls_acceptor("server.crt", "server.key");
                     let server = tokio::spawn(crate::net::tls_server(
